@@ -10,9 +10,17 @@ import (
 )
 
 // runSolverCtx is runSolver with external cancellation.
-func runSolverCtx(ctx context.Context, s solverSpec, input string, timeoutS int) (verdict, output string, secs float64) {
+func runSolverCtx(ctx context.Context, s solverSpec, input string, timeoutS int, started chan struct{}) (verdict, output string, secs float64) {
 	// The budget is CPU time (ulimit -t), so that the verdict does not depend on how busy
 	// the machine is; wall-clock time is capped at four times the budget.
+	slot := acquireSlot()
+	defer releaseSlot(slot)
+	if started != nil {
+		close(started)
+	}
+	if ctx.Err() != nil {
+		return "unknown", "", 0 // the race was decided while this run waited for a slot
+	}
 	wall := 4 * timeoutS
 	cctx, cancel := context.WithTimeout(ctx, time.Duration(wall+2)*time.Second)
 	defer cancel()
@@ -65,29 +73,35 @@ func dischargeHedged(o *Obligation, timeoutS int) {
 	ch := make(chan res, len(solvers))
 	withModel := o.smt(true)
 	noModel := o.smt(false)
-	start := func(s solverSpec) {
+	start := func(s solverSpec, st chan struct{}) {
 		go func() {
 			in := noModel
 			if strings.HasPrefix(s.name, "z3-new") {
 				in = withModel
 			}
-			v, out, t := runSolverCtx(ctx, s, in, timeoutS)
+			v, out, t := runSolverCtx(ctx, s, in, timeoutS, st)
 			ch <- res{v, out, s.name, t}
 		}()
 	}
-	start(solvers[0])
+	// the hedge delay counts from the moment the primary solver actually runs (it may
+	// first wait for a machine-wide slot)
+	started := make(chan struct{})
+	start(solvers[0], started)
 	running := 1
 	hedged := false
-	timer := time.NewTimer(hedgeDelay)
+	timer := time.NewTimer(24 * time.Hour)
 	defer timer.Stop()
 	var outs []string
 	for running > 0 {
 		select {
+		case <-started:
+			started = nil
+			timer.Reset(hedgeDelay)
 		case <-timer.C:
 			if !hedged {
 				hedged = true
-				for _, s := range solvers[1:] {
-					start(s)
+				for _, s := range hedgeSolvers() {
+					start(s, nil)
 					running++
 				}
 			}
@@ -110,8 +124,8 @@ func dischargeHedged(o *Obligation, timeoutS int) {
 			if !hedged {
 				// primary gave up early (unknown): start the others at once
 				hedged = true
-				for _, s := range solvers[1:] {
-					start(s)
+				for _, s := range hedgeSolvers() {
+					start(s, nil)
 					running++
 				}
 			}
@@ -127,4 +141,14 @@ func dischargeHedged(o *Obligation, timeoutS int) {
 			o.Output += "\ncandidate model (quantified background axioms dropped):\n" + out
 		}
 	}
+}
+
+// hedgeLight restricts the hedge to two extra solvers (development runs on a shared machine).
+var hedgeLight = false
+
+func hedgeSolvers() []solverSpec {
+	if hedgeLight {
+		return []solverSpec{solvers[1], solvers[3]}
+	}
+	return solvers[1:]
 }
